@@ -41,11 +41,14 @@ def ensure_env():
         from . import fake_secp
         fake_secp.install()           # must happen before the library is imported: it picks its back end at import
     import btc_hd_wallet  # noqa
-    import btc_hd_wallet.keys as _keys
-    primary = not hasattr(_keys, "CURVE_ORDER")
-    if primary != (BACKEND == "stub"):
-        raise HarnessError("back end mismatch: VERIF_BACKEND=%s but the library %s the pysecp256k1 path"
-                           % (BACKEND, "took" if primary else "did not take"))
+    if BACKEND == "stub":
+        # the library must really have taken the pysecp256k1 path: a probe key construction has to reach the stub
+        # (checked by behaviour, not by looking at module attributes, so a refactor of the dispatch cannot break it)
+        import btc_hd_wallet.keys as _keys
+        before = fake_secp.CALLS[0]
+        _keys.PrivateKey(b"\x01" * 32).K.sec()
+        if fake_secp.CALLS[0] == before:
+            raise HarnessError("VERIF_BACKEND=stub but the library did not call into the pysecp256k1 stub")
     got = os.path.realpath(os.path.dirname(os.path.dirname(btc_hd_wallet.__file__)))
     if got != os.path.realpath(REPO):
         raise HarnessError("btc_hd_wallet imported from %s, expected %s" % (got, REPO))
